@@ -342,6 +342,9 @@ def run(tier):
     import sessionwalk
     sw_model = sessionwalk.model_check(wd, tier)
     sw = sessionwalk.stage(PID, wd, tier, verdict)
+    # every key code x modifier combination of Keys.tla pressed from several start states (no combination reaches a panic! arm)
+    import keys
+    sw.update(keys.stage(PID, wd, tier, verdict))
     rc = verdict.finish(wd)
     calls_ev = [e for e in events if e["call"] != "session"]
     C.write_evidence(PID, tier, "model_checking", {
